@@ -192,10 +192,13 @@ Example parser_nonvacuous :
   canonical ex_stmts = true /\
   stringify ex_stmts = [84;82;65;78;83;73;84;83;40;48;46;46;50;44;68;69;80;79;84;41;59;
                         67;79;86;65;82;73;65;84;69;63;40;64;80;44;91;87;71;84;44;65;71;69;93;44;42;44;43;41] /\
-  parse_mfl (stringify ex_stmts) = Some ex_stmts /\
+  parse_mfl (stringify ex_stmts) = Accepted ex_stmts /\
   parse_ref [84;82;65;78;83;73;84;83;40;49;41] = Some [mkS n_TRANSITS false [AVals [INum 1]]] /\
-  parse_mfl [84;82;65;78;83;73;84;83;40;49;41] = Some [mkS n_TRANSITS false [AVals [INum 1]; AVals [IWord v_DEPOT]]] /\
-  parse_mfl [84;82;65;78;83;73;84;83;40;70;79;41] = None.
+  parse_mfl [84;82;65;78;83;73;84;83;40;49;41] = Accepted [mkS n_TRANSITS false [AVals [INum 1]; AVals [IWord v_DEPOT]]] /\
+  parse_mfl [84;82;65;78;83;73;84;83;40;70;79;41] = Rejected /\
+  (* "allometry(wt, 070.50)" : lower-case keyword, covariate spelling kept, decimal normalised *)
+  parse_mfl [97;108;108;111;109;101;116;114;121;40;119;116;44;32;48;55;48;46;53;48;41] =
+    Accepted [mkS n_ALLOMETRY false [AVals [IWord [119;116]]; AVals [IWord [55;48;46;53]]]].
 Proof. repeat split; vm_compute; reflexivity. Qed.
 
 (* lnt optimality: model FO/FO/0 transits/0 peripherals/no lag against a space needing three transformations *)
@@ -207,3 +210,9 @@ Example lnt_smallest_nonvacuous :
   needed_categories a b = [s_ABSORPTION; s_TRANSITS; s_PERIPHERALS] /\
   (exists items, lnt_modelsearch a b = Ok items /\ length items = 3%nat).
 Proof. repeat split; try (vm_compute; reflexivity). eexists. split; vm_compute; reflexivity. Qed.
+
+(* covsearch: CL-WGT-exp wins step 1, then CL-AGE wins: the CL/WGT effects are gone in step 2, CL/AGE in step 3 *)
+Example covsearch_example :
+  covsearch_procedure [(1,2,3,9); (1,2,4,9); (5,2,3,9); (1,6,3,9)]%N [Some 0%nat; Some 1%nat; None] 1%nat (-1)%Z =
+  [([(1,2,3,9); (1,2,4,9); (5,2,3,9); (1,6,3,9)]%N, 0%nat); ([(5,2,3,9); (1,6,3,9)]%N, 4%nat); ([(5,2,3,9)]%N, 6%nat)].
+Proof. vm_compute. reflexivity. Qed.
